@@ -1,8 +1,8 @@
-(* C16 proofs, part 5: NonTensorStack.data (get_non_tensor), torch.cat of NonTensorData, to_dict: what holds, and the
-   witnesses of what does not (findings C16-a, C16-d, D20). *)
+(* C16 proofs, part 8: NonTensorStack.data (get_non_tensor), torch.cat of non-tensor entries, to_dict, after the repairs of
+   C16-a, C16-d, D20 (the model switches fixed_* are true). *)
 From Coq Require Import ZArith List Bool Lia.
 Import ListNotations.
-From TD Require Import Spec.PySlice Spec.C16_ObjArray Model.C16_NonTensor Proofs.C16_BasicsP Proofs.C16_StackP.
+From TD Require Import Spec.PySlice Spec.C16_ObjArray Model.C16_NonTensor Proofs.C16_BasicsP Proofs.C16_StackP Proofs.C16_SpecP Proofs.C16_IndexP Proofs.C16_TolistP Proofs.C16_AssignP.
 Open Scope nat_scope.
 
 (* ---------------- .data *)
@@ -59,31 +59,241 @@ Proof.
     cbn [all_same_shared]. rewrite Z.eqb_refl. cbn [andb]. now apply IH.
 Qed.
 
-(* with a stack among the members the code answers with the first member's value (C16-a) *)
-Theorem data_refuted :
-  exists x p, wf x = true /\ data_prop x = Some p /\ exists I q, denote x I = Some q /\ q <> p.
+(* ---------------- torch.cat of the non-tensor entries of two tensordicts *)
+Lemma shape_split_at (sa : list nat) dim N : dim < length sa ->
+  firstn dim sa ++ N :: skipn (S dim) sa = insert_at dim N (remove_at dim sa).
 Proof.
-  exists (Stack 0 [Stack 0 [Shared 1%Z []; Shared 1%Z []]; Stack 0 [Shared 2%Z []; Shared 2%Z []]]), 1%Z.
-  split; [reflexivity|]. split; [vm_compute; reflexivity|]. exists [1; 0], 2%Z. split; [reflexivity|discriminate].
+  intros H. unfold insert_at, remove_at.
+  rewrite firstn_app, firstn_firstn, Nat.min_id, firstn_length, Nat.min_l, Nat.sub_diag by lia. cbn [firstn]. rewrite app_nil_r.
+  rewrite skipn_app, firstn_length, Nat.min_l, Nat.sub_diag by lia. cbn [skipn].
+  now rewrite (skipn_all2 (firstn dim sa)) by (rewrite firstn_length; lia).
 Qed.
 
-(* ---------------- torch.cat of NonTensorData entries keeps the first payload (C16-d) *)
-Theorem cat_refuted :
-  exists a b y, cat_shared [a; b] 0 = Ok y /\ shape a = Some [1] /\ shape b = Some [1] /\ shape y = Some [2] /\
-                denote y [1] <> denote b [0].
+Theorem cat_denote a b dim y sa sb na nb :
+  wf a = true -> wf b = true -> shape a = Some sa -> shape b = Some sb ->
+  nth_error sa dim = Some na -> nth_error sb dim = Some nb -> remove_at dim sa = remove_at dim sb ->
+  cat_nt [a; b] dim = Ok y ->
+  forall I k, nth_error I dim = Some k ->
+    denote y I = if k <? na then denote a I else denote b (insert_at dim (k - na) (remove_at dim I)).
 Proof.
-  exists (Shared 1%Z [1]), (Shared 2%Z [1]), (Shared 1%Z [2]). repeat split; try reflexivity. cbn. discriminate.
+  intros Hwa Hwb Hsa Hsb Hna Hnb Hrem H I k Hk.
+  assert (HdI : dim < length I) by (apply nth_error_Some; congruence).
+  assert (Hda : dim < length sa) by (apply nth_error_Some; congruence).
+  assert (Hdb : dim < length sb) by (apply nth_error_Some; congruence).
+  assert (LI : dim <= length (remove_at dim I)) by (rewrite length_remove_at; lia).
+  unfold cat_nt in H. change fixed_C16d with true in H. cbv iota in H.
+  destruct (same_shared [a; b]) eqn:Es.
+  - (* one and the same value *)
+    destruct a as [p sha|]; [|discriminate]. cbn [same_shared all_same_shared] in Es.
+    destruct b as [q shb|]; [|discriminate]. apply andb_true_iff in Es as [Eq _]. apply Z.eqb_eq in Eq. subst q.
+    cbn [shape] in Hsa, Hsb. injection Hsa as ->. injection Hsb as ->.
+    cbn [cat_shared forallb is_shared andb] in H. rewrite Hna in H. injection H as <-.
+    cbn [fold_right]. rewrite (nth_error_nth _ _ 0 Hna), (nth_error_nth _ _ 0 Hnb).
+    rewrite shape_split_at by assumption. cbn [denote].
+    rewrite in_range_insert by (rewrite length_remove_at; lia). rewrite Hk.
+    destruct (k <? na) eqn:Ek.
+    + apply Nat.ltb_lt in Ek. rewrite <- (insert_remove_at I dim k Hk) at 2.
+      rewrite (in_range_insert_coord sa dim na k _ Hna LI).
+      replace (k <? na + (nb + 0)) with true by (symmetry; apply Nat.ltb_lt; lia).
+      replace (k <? na) with true by (symmetry; now apply Nat.ltb_lt). reflexivity.
+    + apply Nat.ltb_ge in Ek. rewrite (in_range_insert_coord sb dim nb (k - na) _ Hnb LI), <- Hrem.
+      replace (k - na <? nb) with (k <? na + (nb + 0)); [reflexivity|].
+      destruct (k <? na + (nb + 0)) eqn:E1; symmetry; [apply Nat.ltb_lt in E1; apply Nat.ltb_lt|apply Nat.ltb_ge in E1; apply Nat.ltb_ge]; lia.
+  - (* a stack of the slices of the operands *)
+    cbn [rmap] in H.
+    destruct (unbind dim a) as [pa| |] eqn:Ea; cbn [rbind] in H; try discriminate.
+    destruct (unbind dim b) as [pb| |] eqn:Eb; cbn [rbind] in H; try discriminate.
+    cbn [concat] in H. rewrite app_nil_r in H.
+    destruct (unbind_spec a dim sa na pa Hwa Hsa Hna Ea) as [La Ha].
+    destruct (unbind_spec b dim sb nb pb Hwb Hsb Hnb Eb) as [Lb Hb].
+    destruct (pa ++ pb) as [|y0 ys] eqn:Ep; [discriminate|]. injection H as <-. rewrite <- Ep.
+    rewrite denote_stack, Hk.
+    destruct (k <? na) eqn:Ek.
+    + apply Nat.ltb_lt in Ek. rewrite nth_error_app1 by lia.
+      destruct (nth_error pa k) as [pk|] eqn:Epk; [|apply nth_error_None in Epk; lia].
+      destruct (Ha k pk Epk) as (_ & _ & Dk). rewrite (Dk _ LI). now rewrite (insert_remove_at I dim k Hk).
+    + apply Nat.ltb_ge in Ek. rewrite nth_error_app2, La by lia.
+      destruct (nth_error pb (k - na)) as [pk|] eqn:Epk.
+      * destruct (Hb _ pk Epk) as (_ & _ & Dk). now rewrite (Dk _ LI).
+      * apply nth_error_None in Epk. symmetry. apply (denote_out_of_range b sb _ Hwb Hsb).
+        rewrite (in_range_insert_coord sb dim nb (k - na) _ Hnb LI).
+        replace (k - na <? nb) with false by (symmetry; apply Nat.ltb_ge; lia). reflexivity.
 Qed.
 
-Theorem cat_partial p l dim y :
-  Forall (fun m => exists sh, m = Shared p sh) l -> cat_shared l dim = Ok y -> exists sh, y = Shared p sh.
+(* ---------------- to_dict: the shared value, or the nested list in batch order *)
+Theorem to_dict_stack d l sh t :
+  wf (Stack d l) = true -> shape (Stack d l) = Some sh -> to_dict (Stack d l) = Ok (GList t) ->
+  tree_of sh (denote (Stack d l)) = Some t.
 Proof.
-  intros H E. destruct l as [|m r]; [discriminate|]. inversion H as [|? ? [sh ->] Hr]; subst. cbn [cat_shared] in E.
-  destruct (forallb is_shared r); [|discriminate]. destruct (nth_error sh dim); [|discriminate]. injection E as <-. eauto.
+  intros Hw Hsh H. unfold to_dict in H. change fixed_D20 with true in H. cbv iota in H.
+  destruct (tolist (Stack d l)) as [t'| |] eqn:E; cbn [rbind] in H; try discriminate. injection H as <-.
+  eapply tolist_rowmajor; eauto.
 Qed.
-
-(* ---------------- to_dict (D20) *)
-Theorem to_dict_refuted : fixed_D20 = false -> exists x, wf x = true /\ to_dict x = Raised.
-Proof. intros _. exists (Stack 0 [Shared 1%Z []; Shared 2%Z []]). split; reflexivity. Qed.
 Theorem to_dict_shared p sh : to_dict (Shared p sh) = Ok (GOne p).
 Proof. reflexivity. Qed.
+
+(* ---------------- .data / get_non_tensor after the repair of C16-a: the value returned is held by EVERY position *)
+Definition all_pos (m : nt) (p : payload) : Prop := forall I q, denote m I = Some q -> q = p.
+
+Lemma denote_some_in_range x sh I q : wf x = true -> shape x = Some sh -> denote x I = Some q -> in_range sh I = true.
+Proof.
+  intros Hw Hs H. destruct (in_range sh I) eqn:E; [reflexivity|]. rewrite (denote_out_of_range x sh I Hw Hs E) in H. discriminate.
+Qed.
+
+Lemma denote_in_range_some x : forall sh I, wf x = true -> shape x = Some sh -> in_range sh I = true -> exists q, denote x I = Some q.
+Proof.
+  induction x as [p sh0|d l IH] using nt_ind'; intros sh I Hw Hsh Hr.
+  - cbn [shape] in Hsh. injection Hsh as <-. cbn [denote]. rewrite Hr. eauto.
+  - apply wf_stack in Hw as (m0 & r0 & s & El & Hwf & Hss & Hd).
+    assert (Hshape : sh = insert_at d (length l) s).
+    { subst l. inversion Hss; subst. rewrite (shape_stack d m0 r0 s) in Hsh by assumption. now injection Hsh as <-. }
+    subst sh. rewrite in_range_insert in Hr by assumption. rewrite denote_stack.
+    destruct (nth_error I d) as [j|]; [|discriminate]. apply andb_true_iff in Hr as [Hj Hr]. apply Nat.ltb_lt in Hj.
+    destruct (nth_error l j) as [m|] eqn:Em; [|apply nth_error_None in Em; lia].
+    exact (Forall_nth_error _ _ _ _ IH Em s _ (Forall_nth_error _ _ _ _ Hwf Em) (Forall_nth_error _ _ _ _ Hss Em) Hr).
+Qed.
+
+Lemma in_range_zeros sh : forallb (fun n => 0 <? n) sh = true -> in_range sh (repeat 0 (length sh)) = true.
+Proof.
+  induction sh as [|n sh IH]; cbn [forallb length repeat in_range]; [reflexivity|].
+  intros H. apply andb_true_iff in H as [H1 H2]. now rewrite H1, IH.
+Qed.
+Lemma in_range_no_pos sh : forallb (fun n => 0 <? n) sh = false -> forall I, in_range sh I = false.
+Proof.
+  induction sh as [|n sh IH]; cbn [forallb]; [discriminate|]. intros H [|x I]; [reflexivity|]. cbn [in_range].
+  destruct (0 <? n) eqn:E; cbn [andb] in H.
+  - rewrite (IH H I). apply andb_false_r.
+  - apply Nat.ltb_ge in E. replace (x <? n) with false by (symmetry; apply Nat.ltb_ge; lia). reflexivity.
+Qed.
+
+Lemma stack_members_pos d l p : (forall m, In m l -> all_pos m p) -> all_pos (Stack d l) p.
+Proof.
+  intros H I q E. rewrite denote_stack in E. destruct (nth_error I d) as [k|]; [|discriminate].
+  destruct (nth_error l k) as [m|] eqn:Em; [|discriminate]. eapply H; eauto. eapply nth_error_In; eauto.
+Qed.
+
+Lemma slices_pos m n sh' slices p :
+  wf m = true -> shape m = Some (n :: sh') -> unbind 0 m = Ok slices -> (forall s, In s slices -> all_pos s p) -> all_pos m p.
+Proof.
+  intros Hw Hs Eu H I q E. pose proof (denote_some_in_range m _ I q Hw Hs E) as Hr.
+  destruct I as [|k I']; [discriminate|]. cbn [in_range] in Hr. apply andb_true_iff in Hr as [Hk _]. apply Nat.ltb_lt in Hk.
+  destruct (unbind_spec m 0 (n :: sh') n slices Hw Hs eq_refl Eu) as [L Hsl].
+  destruct (nth_error slices k) as [s|] eqn:Es; [|apply nth_error_None in Es; lia].
+  destruct (Hsl k s Es) as (_ & _ & D). apply (H s (nth_error_In _ _ Es) I' q). rewrite (D I' ltac:(lia)). now rewrite insert_at_0.
+Qed.
+
+Definition su_loop (f : nat) (first_data : option payload) :=
+  fix loop (l : list nt) (firstdata : option payload) : option payload :=
+    match l with
+    | [] => first_data
+    | Shared p _ :: r =>
+        match firstdata with
+        | None => loop r (Some p)
+        | Some q => if (p =? q)%Z then loop r firstdata else None
+        end
+    | (Stack _ _ as m) :: r =>
+        match unbind 0 m with
+        | Ok slices =>
+            match stack_unique f slices with
+            | Some p =>
+                if fixed_C16a
+                then match firstdata with
+                     | None => loop r (Some p)
+                     | Some q => if (p =? q)%Z then loop r firstdata else None
+                     end
+                else first_data
+            | None => None
+            end
+        | _ => None
+        end
+    end.
+
+Lemma su_unfold f first rest :
+  stack_unique (S f) (first :: rest) =
+  su_loop f (match first with Shared p _ => Some p | Stack _ l' => stack_unique f l' end) (first :: rest) None.
+Proof. reflexivity. Qed.
+
+Definition su_ok (f : nat) : Prop :=
+  forall l p sh, Forall (fun m => wf m = true) l -> Forall (fun m => shape m = Some sh) l ->
+    stack_unique f l = Some p -> forall m, In m l -> all_pos m p.
+
+(* one member processed by the loop: all its positions hold the value it contributes *)
+Lemma su_member f sh m :
+  su_ok f -> wf m = true -> shape m = Some sh ->
+  forall v, (match m with
+             | Shared p _ => Some p
+             | Stack _ _ => match unbind 0 m with Ok slices => stack_unique f slices | _ => None end
+             end) = Some v -> all_pos m v.
+Proof.
+  intros IHf Hw Hs v H. destruct m as [p s0|d l0].
+  - injection H as <-. intros I q E. cbn [denote] in E. destruct (in_range s0 I); [now injection E|discriminate].
+  - destruct (unbind 0 (Stack d l0)) as [slices| |] eqn:Eu; try discriminate.
+    destruct sh as [|n sh'].
+    { unfold unbind in Eu. rewrite Hs in Eu. discriminate. }
+    destruct (unbind_spec (Stack d l0) 0 (n :: sh') n slices Hw Hs eq_refl Eu) as [L Hsl].
+    eapply slices_pos; eauto. intros s Hin.
+    apply (IHf slices v (remove_at 0 (n :: sh'))); auto.
+    + apply Forall_forall. intros s' Hs'. apply In_nth_error in Hs' as [k Hk]. now destruct (Hsl k s' Hk) as (_ & W & _).
+    + apply Forall_forall. intros s' Hs'. apply In_nth_error in Hs' as [k Hk]. now destruct (Hsl k s' Hk) as (S' & _ & _).
+Qed.
+
+Lemma su_loop_some f fdata sh : su_ok f -> forall l q0 p,
+  Forall (fun m => wf m = true) l -> Forall (fun m => shape m = Some sh) l ->
+  su_loop f fdata l (Some q0) = Some p -> fdata = Some p /\ forall m, In m l -> all_pos m q0.
+Proof.
+  intros IHf. induction l as [|m r IH]; intros q0 p Hw Hs H.
+  - cbn [su_loop] in H. split; [assumption|]. intros m [].
+  - inversion Hw as [|? ? Wm Wr]; inversion Hs as [|? ? Sm Sr]; subst.
+    assert (Hstep : exists v, (match m with
+             | Shared p _ => Some p
+             | Stack _ _ => match unbind 0 m with Ok slices => stack_unique f slices | _ => None end
+             end) = Some v /\ v = q0 /\ su_loop f fdata r (Some q0) = Some p).
+    { destruct m as [p1 s1|d1 l1]; cbn [su_loop] in H.
+      - destruct (p1 =? q0)%Z eqn:E; [|discriminate]. apply Z.eqb_eq in E. subst. eauto.
+      - destruct (unbind 0 (Stack d1 l1)) as [slices| |]; try discriminate.
+        destruct (stack_unique f slices) as [v|]; [|discriminate]. change fixed_C16a with true in H. cbv iota in H.
+        destruct (v =? q0)%Z eqn:E; [|discriminate]. apply Z.eqb_eq in E. subst. eauto. }
+    destruct Hstep as (v & Hv & -> & Hr). destruct (IH q0 p Wr Sr Hr) as [A B]. split; [assumption|].
+    intros m' [<-|Hin]; [eapply su_member; eauto|now apply B].
+Qed.
+
+Theorem su_ok_all f : su_ok f.
+Proof.
+  induction f as [|f IHf]; intros l p sh Hw Hs H m Hin; [discriminate|].
+  destruct l as [|first rest]; [discriminate|]. rewrite su_unfold in H.
+  inversion Hw as [|? ? Wf Wr]; inversion Hs as [|? ? Sf Sr]; subst.
+  set (fdata := match first with Shared p _ => Some p | Stack _ l' => stack_unique f l' end) in *.
+  (* the first member sets firstdata *)
+  assert (Hstep : exists q0, (match first with
+             | Shared p _ => Some p
+             | Stack _ _ => match unbind 0 first with Ok slices => stack_unique f slices | _ => None end
+             end) = Some q0 /\ su_loop f fdata rest (Some q0) = Some p).
+  { destruct first as [p1 s1|d1 l1]; cbn [su_loop] in H; [eauto|].
+    destruct (unbind 0 (Stack d1 l1)) as [slices| |]; try discriminate.
+    destruct (stack_unique f slices) as [v|]; [|discriminate]. change fixed_C16a with true in H. cbv iota in H. eauto. }
+  destruct Hstep as (q0 & Hq0 & Hr).
+  destruct (su_loop_some f fdata sh IHf rest q0 p Wr Sr Hr) as [Hfd Hrest].
+  pose proof (su_member f sh first IHf Wf Sf q0 Hq0) as Hfirst.
+  assert (Hall : forall m', In m' (first :: rest) -> all_pos m' q0) by (intros m' [<-|Hm']; auto).
+  (* the value returned is first.data: the same as q0 as soon as there is a position at all *)
+  destruct (forallb (fun n => 0 <? n) sh) eqn:Epos.
+  - assert (Hp : all_pos first p).
+    { destruct first as [p1 s1|d1 l1]; unfold fdata in Hfd.
+      - injection Hfd as <-. intros I q E. cbn [denote] in E. destruct (in_range s1 I); [now injection E|discriminate].
+      - apply wf_stack in Wf as (m0 & r0 & s' & El & Hwf' & Hss' & Hd').
+        apply stack_members_pos. intros m' Hm'. eapply (IHf l1 p s'); eauto. }
+    destruct (denote_in_range_some first sh _ Wf Sf (in_range_zeros sh Epos)) as (v & Ev).
+    assert (p = q0) by (rewrite <- (Hp _ _ Ev); exact (Hfirst _ _ Ev)). subst q0. now apply Hall.
+  - intros I q E. exfalso.
+    assert (Wm : wf m = true) by (rewrite Forall_forall in Hw; now apply Hw).
+    assert (Sm : shape m = Some sh) by (rewrite Forall_forall in Hs; now apply Hs).
+    pose proof (denote_some_in_range m sh I q Wm Sm E) as Hr'. rewrite (in_range_no_pos sh Epos I) in Hr'. discriminate.
+Qed.
+
+Theorem data_full x p : wf x = true -> data_prop x = Some p -> forall I q, denote x I = Some q -> q = p.
+Proof.
+  intros Hw H. destruct x as [p0 sh|d l].
+  - injection H as <-. intros I q E. cbn [denote] in E. destruct (in_range sh I); [now injection E|discriminate].
+  - unfold data_prop in H. pose proof Hw as Hw0. apply wf_stack in Hw as (m0 & r0 & s & El & Hwf & Hss & Hd).
+    apply stack_members_pos. intros m Hm. eapply (su_ok_all _ l p s); eauto.
+Qed.
